@@ -128,6 +128,10 @@ func runC16(c *core.Ctx) {
 		if got, derr := els.DecryptInnerData(cookie[:], x25519.PrivateKey(otherPriv)); derr == nil || got != nil {
 			c.Violate("encrypted_leaseset.DecryptInnerData", "unrelated-key-decrypts", sh, blob, "")
 		}
+		// decrypting — successfully or not — reads the structure and leaves it what it was
+		if after := els.EncryptedInnerData(); !bytes.Equal(after, blob) {
+			c.Violate("encrypted_leaseset.DecryptInnerData", "decryption-changed-the-encrypted-leaseset", sh, blob, "EncryptedInnerData() after decryption attempts: "+describeDiff(blob, after))
+		}
 		// every byte position (a sample of positions for most cases) x masks: error, never a value
 		var positions []int
 		if i < fullPositions {
